@@ -57,6 +57,7 @@ def case_unary_and_consts(cid, kind, order, nv=3):
         ops.append(f"NOT h{k} h{i}")
         k += 1
         ops.append(f"EVAL h{i}")
+        ops.append(f"SATVALID h{i}")      # satisfiable() / valid() through the Rust API (C02; package C12s)
         ops.append(f"NC h{i}")
         ops.append(f"COF h{k} h{k + 1} h{i}")
         k += 2
